@@ -1359,7 +1359,7 @@ class Interp:
         r = await self.run_cmd(sess, ms, f"{'UID ' if op.get('uid') else ''}STORE {txt} {item} {fl_txt}")
         if r.status is None or ms.dead:
             return
-        if ("*" in txt or valid is False) and list(sess.view or []) != vlen:
+        if ("*" in txt or valid is False) and (list(sess.view or []) != vlen or any(u.kind == "EXISTS" for u in r.untagged)):
             uids = None  # the set was evaluated after the mailbox grew during the command
             valid = None
         has_recent = "\\recent" in [canon_flag(f) for f in flags]
@@ -1464,7 +1464,7 @@ class Interp:
         if r.status is None or ms.dead:
             return
         self.check_uid_fetch_answer(sess, ms, box, op, txt, items, uids, valid, pre_view, r)
-        if ("*" in txt or valid is False) and list(sess.view or []) != vlen:
+        if ("*" in txt or valid is False) and (list(sess.view or []) != vlen or any(u.kind == "EXISTS" for u in r.untagged)):
             uids = [None]
             valid = None
         peek = "PEEK" in items.upper() or not re.search(r"BODY\[|RFC822(?!\.SIZE|\.HEADER)", items.upper())
@@ -1924,7 +1924,7 @@ class Interp:
                 if sorted(set(cu[1])) != sorted(set(meant)):
                     self.V("C01", "seq_accepted_wrong_message", session=sess.sid, cmd=f"{verb} {txt}", meant=sorted(set(meant)), acted_on=sorted(set(cu[1])), why="EXPUNGE sent inside the command, numbers applied afterwards")
                     self.V("C05", "copy_hit_wrong_message", session=sess.sid, cmd=f"{verb} {txt}", asked=sorted(set(meant)), copied=sorted(set(cu[1])))
-        if ("*" in txt or valid is False) and list(sess.view or []) != vlen:
+        if ("*" in txt or valid is False) and (list(sess.view or []) != vlen or any(u.kind == "EXISTS" for u in r.untagged)):
             uids = None
             valid = None
         boxes = [box] + ([dst] if dst is not None else [])
